@@ -11,7 +11,7 @@ interleaving, and counts the threads whose result differs from the result of
 the same thread running alone. It also lets the threads draw instance ids from
 the atomically updated counter (`idSys true`) and counts duplicates.
 Result: `<mismatches> <duplicate ids>` (theorems `parse_reentrant`, `instance_ids_distinct`: 0 0).
-Mode `lean` (every fifth case): the payload carries programs with their token lists; the Lean parser
+Mode `lean` (every second case): the payload carries programs with their token lists; the Lean parser
 model (Model/Parser, the port C07 ties to parser.go) parses them and the result line is the hash of
 its C07-format result per program — what every concurrent Go parse of that program must have produced.
 -/
